@@ -181,6 +181,10 @@ StarC  == [Star EXCEPT !.ach = (1 :> ("broken" :> T1p @@ "fleeting" :> T1p @@ "f
 ChainC == [Chain EXCEPT !.bch = ({2,3} :> ("broken" :> P23 @@ "fleeting" :> R23p)),
                         !.bd[{1,2}].role = "broken", !.bst = ({3,4} :> D("PlanarBond", <<2, NoAtom, 3, 4, NoAtom, NoAtom>>, 0))]
 
+(* one change entry whose descriptors cover DIFFERENT atom sets (as at an SN2 centre): a subgraph may keep only part of it *)
+StarCP == [Star EXCEPT !.ach = (1 :> ("broken" :> T1p @@ "formed" :> D("Tetrahedral", <<1, 2, 3, NoAtom, NoAtom>>, -1))),
+                       !.bd[{1,4}].role = "broken"]
+
 (* several descriptors at once, on neighbouring keys: a renaming that maps one key onto another key (swap, shift) must
    not lose or overwrite an entry *)
 ChainTT == [Chain EXCEPT !.ast = (2 :> D("Tetrahedral", <<2, 1, 3, NoAtom, NoAtom>>, 1)) @@
@@ -224,7 +228,7 @@ GenSmall ==
 Seeds == CASE SeedSet = "empty"  -> { EmptyGraph(Kind) }
            [] SeedSet = "stereo" -> { EmptyGraph(Kind), Star, Chain } \cup
                                     (IF HasStereo(Kind) THEN { StarT, ChainP, LoneT, StarU, ChainU, ChainTT } ELSE {}) \cup
-                                    (IF HasChanges(Kind) THEN { StarC, ChainC, LoneC, StarCU } ELSE {})
+                                    (IF HasChanges(Kind) THEN { StarC, ChainC, LoneC, StarCU, StarCP } ELSE {})
            [] SeedSet = "multi"  -> (IF HasStereo(Kind) THEN { ChainTT } ELSE { Chain }) \cup
                                     (IF HasChanges(Kind) THEN { ChainCC } ELSE {})
            [] SeedSet = "gen"    -> GenSmall
@@ -239,7 +243,9 @@ Last(slot, op, o, alts) == [slot |-> slot, op |-> op, out |-> o.out, ans |-> o.a
 Init == /\ A \in Seeds /\ B = NoGraph /\ C = NoGraph /\ ph = 0 /\ last = NoLast
 
 OpsOn(g) == MutOps(g) \cup QueryOps(g) \cup RelabelOps(g)
-FollowOps(g) == IF FollowMode = "all" THEN OpsOn(g) ELSE { op \in OpsOn(g) : InFocus(g, op) }
+FollowOps(g) == IF FollowMode = "all" THEN OpsOn(g)
+                ELSE IF FollowMode = "none" THEN {}          \* only compose / second derivations after the derivation
+                ELSE { op \in OpsOn(g) : InFocus(g, op) }
 
 EditA(nextph, ops) ==
    \E op \in ops : LET alts == Outcomes(A, NoGraph, op) IN
@@ -303,6 +309,8 @@ StepProps ==
    /\ (last'.slot = "B" => <<A', C'>> = <<A, C>>)
    /\ (last'.slot = "C" => <<A', B'>> = <<A, B>>)
    /\ (last'.slot = "BC" => A' = A /\ B' = B)
+   \* the cover law of C17: a graph composed with one of its own induced subgraphs, in either order, is the graph again
+   /\ (last'.op.name = "compose" /\ last'.out = "ok" /\ A.kind = Kind /\ B.kind = A.kind /\ B = Subgraph(A, Atoms(B)) => C' = A)
    /\ (last'.op.name = "remove_atom" /\ last'.out = "ok" /\ last'.slot = "A" =>
           last'.op.a \notin AllIds(A'))
 StepInv == [][StepProps]_vars
